@@ -322,7 +322,11 @@ def run_store_check(ctx, prop, prop_file, n_quick, n_thorough, own_prefix, extra
         ctx.violation({"kind": "correspondence", "theorem": "Run.Store.check (model run = implementation results and final store)",
                        "mismatching_histories": len(mism), "cmds": h["cmds"], "results": h["results"], "final": h["final"]},
                       found_input=False)
+    ostats = collections.Counter()
+    for h in hs:
+        ostats.update(h.get("stats") or {})
     cov.update({
+        "oracle_clause_counts": dict(ostats),
         "evaluations": len(hs),
         "distinct_nontrivial": len(seen),
         "rule": rule,
